@@ -8,8 +8,9 @@ from ksiverif.runner import Config, Engine  # noqa: E402
 
 # the five outcomes of a basic rule: OK, NA (component absent: error NONE), NA (inconclusive),
 # FAIL, internal error (result left at the pre-loaded NA/GEN-02)
-OUTCOMES = [(0, 0, 0), (0, 1, 0), (0, 1, 0x102), (0, 2, 0x201), (0x100, 1, 0x102)]
-EXTRA_OUTCOMES = [(0x200, 2, 0x203), (0xffff, 0, 0), (0, 2, 0x101), (0, 0, 0x301)]
+# (0, 9, 0): the rule returns KSI_OK and writes no result at all (what stands is the pre-loaded NA/GEN-02)
+OUTCOMES = [(0, 0, 0), (0, 1, 0), (0, 1, 0x102), (0, 2, 0x201), (0x100, 1, 0x102), (0, 9, 0)]
+EXTRA_OUTCOMES = [(0x200, 2, 0x203), (0xffff, 0, 0), (0, 2, 0x101), (0, 0, 0x301), (0x100, 9, 0)]
 
 
 def shapes(depth, width):
@@ -69,7 +70,7 @@ def gen(rng, tier):
             seen.add(s)
             k = leaves(s)
             txt = "L(%s)" % render(s, iter(range(64)))
-            for assign in itertools.product(OUTCOMES, repeat=k):
+            for assign in itertools.product(OUTCOMES if ss is sets[0] else OUTCOMES[:5], repeat=k):
                 yield "verify %s %s" % (txt, outs_txt(assign))
     # 2. exhaustive fallback chains: policies from {b, A(b), O(b), b,b} x outcomes, chain length 1..4
     small = [("b",), (("A", ("b",)),), (("O", ("b",)),), ("b", "b")]
@@ -80,7 +81,7 @@ def gen(rng, tier):
             ids = iter(range(64))
             txt = "|".join("L(%s)" % render(small[c], ids) for c in combo)
             k = sum(leaves(small[c]) for c in combo)
-            if 5 ** k <= 700:
+            if len(OUTCOMES) ** k <= 1300:
                 assigns = itertools.product(OUTCOMES, repeat=k)
             else:
                 assigns = [tuple(rng.choice(OUTCOMES) for _ in range(k)) for _ in range(150)]
@@ -117,6 +118,10 @@ def gen(rng, tier):
         yield "verifyc %s %s" % ("|".join(pols), outs_txt(assign))
         if "-" not in pols:
             yield "verifyf %s %s" % ("|".join(pols), outs_txt(assign))
+            if np > 1 and 62 >= k:
+                # every fallback set twice (a decoy first); entered through a clone taken while the decoy was in place
+                yield "verifyg %s %s" % ("|".join(pols), outs_txt(assign))
+                yield "verifyh %s %s" % ("|".join(pols), outs_txt(assign))
 
 
 def trivial(cls):
@@ -135,9 +140,9 @@ CONFIG.required_theorems = [
 CONFIG.engines = [Engine("c05", ["exec_c05.c"], "drv_c05", gen, trivial=trivial)]
 CONFIG.rule = ("rule trees built from 64 scripted trampoline rules and run through the real "
                "KSI_SignatureVerifier_verify: exhaustive over all trees of depth<=1/width<=2 (thorough: depth 2 "
-               "width 2 and depth 1 width 3 with <=5 basic rules) x all assignments of the five outcomes; exhaustive "
+               "width 2 and depth 1 width 3 with <=5 basic rules) x all assignments of the five (smallest trees: six, with a rule that writes no result) outcomes; exhaustive "
                "small fallback chains of length 1..4; random trees up to depth 4 / 60 basic rules incl. empty rule "
-               "arrays, repeated rules, missing rule arrays. Compared: status, final result and error code, order of "
+               "arrays, repeated rules, missing rule arrays; the same chains through KSI_Policy_clone, KSI_Policy_create + KSI_Policy_setFallback, every fallback set twice (a decoy first), a clone taken while the decoy was in place. Compared: status, final result and error code, order of "
                "invocation. Distinct by op line; every case is non-trivial (each runs the engine).")
 CONFIG.trusted_base = [
     "Lean 4.33.0 kernel; axioms propext, Classical.choice, Quot.sound only",
